@@ -16,7 +16,7 @@
 (* computed from the logged calls and their result kinds only, never from   *)
 (* the observed values.  One VERDICT line is printed per trace.             *)
 (***************************************************************************)
-EXTENDS Derived, Json, IOUtils, TLCExt
+EXTENDS ParsersSpec, Json, IOUtils, TLCExt
 
 Traces == JsonDeserialize(IOEnv.TRACE_FILE)
 
@@ -88,8 +88,17 @@ StepDerive ==
   /\ fails' = fails \cup { <<l, x[1], x[2]>> : x \in NotOk(DeriveTable(R, T, prevO, Line)) }
   /\ UNCHANGED <<R, T, rej, prevO>>
 
+\* C18 / C09_c / C10_d: stateless lines (parsers, timestamp compaction)
+StepParse ==
+  /\ Line.op \in {"parse", "compact", "keys"}
+  /\ LET tab == CASE Line.op = "parse"   -> ParseTable(Line)
+                  [] Line.op = "compact" -> CompactTable(Line)
+                  [] Line.op = "keys"    -> KeysTable(Line)
+     IN fails' = fails \cup { <<l, x[1], x[2]>> : x \in NotOk(tab) }
+  /\ UNCHANGED <<R, T, rej, prevO>>
+
 Step == /\ l <= Len(Traces[tid])
-        /\ (StepNew \/ StepAdd \/ StepNode \/ StepObserve \/ StepBattery \/ StepDerive)
+        /\ (StepNew \/ StepAdd \/ StepNode \/ StepObserve \/ StepBattery \/ StepDerive \/ StepParse)
         /\ l' = l + 1
         /\ UNCHANGED tid
 
